@@ -548,14 +548,14 @@ Proof.
   destruct j as [|j].
   - cbn [nth bin_amp]. rewrite Hrest0; [reflexivity|].
     intros i Hi. apply (Hz (S i)); [lia|cbn; lia].
-  - cbn [bin_amp].
+  - change (nth (S j) ((th, dth, e) :: cols) (0, 0, [])) with (nth j cols (0, 0, [])).
+    change (nth (S j) (ph :: phases) 0) with (nth j phases 0).
+    set (B := bin_amp c xp f df [nth j cols (0, 0, [])] [nth j phases 0]).
+    cbn [bin_amp].
     assert (E0 : interp0 xp e f = 0) by (apply (Hz O); [lia|cbn; lia]).
     rewrite E0, amp_zero.
     rewrite (IH phases j).
-    + change (nth (S j) ((th, dth, e) :: cols) (0, 0, [])) with (nth j cols (0, 0, [])).
-      change (nth (S j) (ph :: phases) 0) with (nth j phases 0).
-      destruct (bin_amp c xp f df [nth j cols (0, 0, [])] [nth j phases 0]) as [a b].
-      unfold cadd. cbn [fst snd]. f_equal; ring.
+    + fold B. destruct B as [a b]. unfold cadd. cbn [fst snd]. f_equal; ring.
     + cbn in Hj. lia.
     + cbn in Hlen. lia.
     + intros i Hij Hi. apply (Hz (S i)); [lia|cbn; lia].
@@ -617,7 +617,7 @@ Proof.
   - intros row Hr. apply in_map_iff in Hr. destruct Hr as (r & <- & _). discriminate.
   - intros f df Hin. rewrite (combine_dfs_value fs n f df Hn Hin).
     apply Rmult_le_pos; [|apply He]. apply Rmult_le_pos; [|exact Hdth].
-    left. apply Rdiv_lt_0_compat; [exact Hfs|]. apply lt_0_INR. lia.
+    left. apply Rdiv_lt_0_compat; [exact Hfs|]. apply lt_0_INR. rewrite (nfft_twice_half n). lia.
 Qed.
 
 (* the k-th energy term written out: (fs/nfft) * dtheta * E_k * |factor_k|^2 at f_k = k fs/nfft *)
